@@ -7,6 +7,8 @@ CONSTANTS
   MaxReq = 2
   NPkts = 0
   CtxMayExpire = TRUE
+  PlainShut = {}
+  DeadlinesMayFire = FALSE
   ClientMayClose = TRUE
   HandlerMayClose = TRUE
   HandlerMayHijack = FALSE
